@@ -256,6 +256,7 @@ pub fn fork(kind: ForkKind, cfg_a: &Cfg, cfg_b: &Cfg, head_a: &[Op], head_b: &[O
         }
         b.now_ms = a.now_ms;
         b.alt = a.alt;
+        b.acting_client = a.acting_client;
     }
     if kind == ForkKind::Crash {
         b.now_ms = a.now_ms;
@@ -270,11 +271,17 @@ pub fn fork(kind: ForkKind, cfg_a: &Cfg, cfg_b: &Cfg, head_a: &[Op], head_b: &[O
     }
     a.w.trace = Some(vec![]);
     b.w.trace = Some(vec![]);
-    for op in cont {
+    let hs = cont.iter().take_while(|o| matches!(o, Op::SetAlt { .. } | Op::SwapSide)).count() + 2;
+    for (i, op) in cont.iter().enumerate() {
         a.exec(op);
         b.exec(op);
         if a.w.failed() || b.w.failed() {
             break;
+        }
+        if kind == ForkKind::Fresh && i + 1 == hs && a.w.m.st != St::Connected && b.w.m.st != St::Connected {
+            // no new session came into being on either object (e.g. both refuse the handshake
+            // for a reason the model agrees with): nothing to compare
+            return ForkResult { viol: None, a, b };
         }
     }
     let ta = a.w.trace.clone().unwrap();
@@ -289,6 +296,14 @@ pub fn fork(kind: ForkKind, cfg_a: &Cfg, cfg_b: &Cfg, head_a: &[Op], head_b: &[O
             let mut v = b.w.viol.clone().unwrap();
             if !v.props.is_empty() && !v.props.contains(&"C16") {
                 v.props.push("C16");
+            }
+            viol = Some(v);
+        }
+        if kind == ForkKind::Fresh && a.w.failed() && !b.w.failed() && !a.w.lenient {
+            // the reused object trips a monitor the fresh one does not
+            let mut v = a.w.viol.clone().unwrap();
+            if !v.props.is_empty() && !v.props.contains(&"C10") {
+                v.props.push("C10");
             }
             viol = Some(v);
         }
